@@ -99,7 +99,15 @@ func (t *Union) unextend() func() {
 func (t *Union) Validate(root *Root) (errs []error) {
 	// All members must be Objects and there must be at least one member.
 	if 0 < len(t.Members) {
-		for _, m := range t.Members {
+		for i, m := range t.Members {
+			// Extend() refuses a member that is already there, the
+			// definition must not have one twice either.
+			for _, m2 := range t.Members[:i] {
+				if m.Name() == m2.Name() {
+					errs = append(errs, fmt.Errorf("%w, union member %s is repeated in %s at %d:%d",
+						ErrValidation, m.Name(), t.Name(), t.line, t.col))
+				}
+			}
 			if _, ok := m.(*Object); !ok {
 				errs = append(errs, fmt.Errorf("%w, %s can not be a union member since it is a %T, not an *ggql.Object at %d:%d",
 					ErrValidation, m.Name(), m, t.line, t.col))
